@@ -464,8 +464,76 @@ pub fn run(tier: Tier) -> ! {
             Ok(Err(e)) | Err(e) => acc.viol.add("", || Violation { key: String::new(), summary: format!("classes {} and {} in one scanner: {e}", menu[xi], menu[yi]), replay: json!({"patterns": [menu[xi], menu[yi]], "error": e}) }),
         }
     });
+    // 4. many classes in ONE scanner: a class X as the first pattern, N single-character filler
+    // patterns (each its own class), a class Y as the last pattern, for N around 64, 128 and 256
+    // (anything kept per class id - bit sets, memo tables, id arithmetic - wraps at such sizes).
+    // For every scalar: type 0 iff X contains it, else the filler's type, else 1 iff Y contains it.
+    let many_items: Vec<(usize, &str, &str)> = [30usize, 62, 63, 64, 65, 66, 126, 127, 128, 129, 255, 256, 257, 300]
+        .iter()
+        .flat_map(|n| [("[a-c]", "[x-z]"), ("[x-z]", "[a-c]"), ("\\d", "[0-9a-fx]"), ("[^\\x00-\\x7f]", "[\\x00-z]"), ("[[:alpha:]&&[^c]]", "\\w")].into_iter().map(move |(x, y)| (*n, x, y)))
+        .collect();
+    let many_accs = par_for(many_items.len(), 1, || Acc { samples: Samples::new(1), ..Default::default() }, |acc, i| {
+        let (n, x, y) = many_items[i];
+        let (Ok(xs), Ok(ys)) = (tabulate_pattern(x), tabulate_pattern(y)) else { return };
+        if start.elapsed().as_secs_f64() > cap_s {
+            acc.skipped_by_cap += 1;
+            return;
+        }
+        let fillers: Vec<char> = (0..n).map(|k| char::from_u32(0x4e00 + 7 * k as u32).unwrap()).collect();
+        let mut pats = vec![bridge::CPat::new(x, 0)];
+        pats.extend(fillers.iter().enumerate().map(|(k, c)| bridge::CPat::new(&c.to_string(), k + 2)));
+        pats.push(bridge::CPat::new(y, 1));
+        let cfg = bridge::Cfg::single(pats);
+        let all = bridge::all_scalars_string();
+        let r = bridge::catch(|| {
+            let sc = cfg.build_uncached().map_err(|e| e.to_string())?;
+            let (mut g0, mut g1) = (CharSet::empty(), CharSet::empty());
+            let mut filler_hits = 0usize;
+            for m in sc.find_iter(all) {
+                let c = all[m.start()..m.end()].chars().next().unwrap();
+                if m.end() - m.start() != c.len_utf8() {
+                    return Err(format!("token {}..{} is not one character", m.start(), m.end()));
+                }
+                match m.token_type() {
+                    0 => g0.insert(c),
+                    1 => g1.insert(c),
+                    t => {
+                        if fillers.get(t - 2) != Some(&c) {
+                            return Err(format!("{c:?} (U+{:04X}) is reported with token type {t}, which belongs to the filler {:?}", c as u32, fillers.get(t - 2)));
+                        }
+                        filler_hits += 1;
+                    }
+                }
+            }
+            Ok((g0, g1, filler_hits))
+        });
+        acc.checked += 1;
+        match r {
+            Ok(Ok((g0, g1, filler_hits))) => {
+                let mut fs = CharSet::empty();
+                for c in &fillers {
+                    fs.insert(*c);
+                }
+                let want1 = ys.zip(&xs, |y, x| y & !x).zip(&fs, |y, f| y & !f);
+                let want_fillers = fs.zip(&xs, |f, x| f & !x).count();
+                let bad = g0.first_difference(&xs).map(|c| (c, 0)).or_else(|| g1.first_difference(&want1).map(|c| (c, 1)));
+                if let Some((c, which)) = bad {
+                    acc.viol.add("", || Violation {
+                        key: String::new(),
+                        summary: format!("{x} first, {n} one-character filler patterns, {y} last in one scanner: {c:?} (U+{:04X}) is {}reported for the {} pattern, but used alone the class {} it", c as u32, if (if which == 0 { &g0 } else { &g1 }).contains(c) { "" } else { "not " }, if which == 0 { "first" } else { "last" }, if (if which == 0 { &xs } else { &want1 }).contains(c) { "contains" } else { "does not contain" }),
+                        replay: json!({"patterns": format!("{x} => 0, then {n} literals U+4E00, U+4E07, ... (step 7) => 2.., then {y} => 1"), "char": c.to_string(), "codepoint": c as u32, "how": "build all patterns in one mode, scan the string of all scalars"}),
+                    });
+                } else if filler_hits != want_fillers {
+                    acc.viol.add("", || Violation { key: String::new(), summary: format!("{x} first, {n} one-character filler patterns, {y} last in one scanner: {filler_hits} fillers are reported, expected {want_fillers}"), replay: json!({"patterns": format!("{x} => 0, then {n} literals U+4E00, U+4E07, ... (step 7) => 2.., then {y} => 1"), "how": "build all patterns in one mode, scan the string of all scalars"}) });
+                }
+                acc.nontrivial += 1;
+            }
+            Ok(Err(e)) | Err(e) => acc.viol.add("", || Violation { key: String::new(), summary: format!("{x} first, {n} fillers, {y} last in one scanner: {e}"), replay: json!({"patterns": [x, y], "fillers": n, "error": e}) }),
+        }
+    });
+    let many_n = many_items.len();
     let mut total = Acc { samples: Samples::new(8), ..Default::default() };
-    for a in accs.into_iter().chain(pair_accs) {
+    for a in accs.into_iter().chain(pair_accs).chain(many_accs) {
         total.checked += a.checked;
         total.nontrivial += a.nontrivial;
         total.rejected.extend(a.rejected);
@@ -495,6 +563,7 @@ pub fn run(tier: Tier) -> ! {
     cov.insert("oracle_pointwise_crosschecks".into(), json!(total.pointwise_crosschecks));
     let mut fams = fams;
     fams.push(json!({"family": "context independence: every ordered pair of the class menu as two patterns of one scanner, all scalars", "menu": menu, "pairs": pairs.len(), "exhaustive": true}));
+    fams.push(json!({"family": "many classes in one scanner: class X first, N one-character filler patterns, class Y last, for N in 30, 62..66, 126..129, 255..257, 300 and five (X, Y) pairs; all scalars", "scanners": many_n, "exhaustive": true}));
     cov.insert("families".into(), json!(fams));
     cov.insert("disagreeing_expressions".into(), json!(n_dis));
     run.finish(
